@@ -161,9 +161,18 @@ impl Group for DestGroup {
         // every cut position of a short domain destination
         let w = { let mut w = enc_dest(3, b"a.b", 443); w.extend_from_slice(b"TAIL"); w };
         for k in 0..=w.len() { v.push(Case { lines: vec![format!("dest dec 1 {} {}", hex(&w[..k]), hex(&w[k..]))] }); }
+        // the relay loop: a datagram cut in two with a pause of 1 ms .. 61 s between the pieces, followed by another one
+        for (k, ms) in [(1usize, 2500u64), (2, 6000), (3, 1), (300, 6000), (502, 11000), (1000, 61000), (1201, 6000)] {
+            let d1: Vec<u8> = (0..1200usize).map(|i| (i * 7 % 251) as u8).collect();
+            let mut w = (d1.len() as u16).to_be_bytes().to_vec(); w.extend_from_slice(&d1);
+            let d2 = vec![0x5au8; 30];
+            let mut w2 = (d2.len() as u16).to_be_bytes().to_vec(); w2.extend_from_slice(&d2);
+            v.push(Case { lines: vec![format!("dest udprelay 000401020304 {} ~{ms} {} {}", hex_compact(&w[..k]), hex_compact(&w[k..]), hex_compact(&w2))] });
+        }
         // ... and with a pause at every cut
         for k in 1..w.len() { v.push(Case { lines: vec![format!("dest dec 1 {} ~2500 {}", hex(&w[..k]), hex(&w[k..]))] }); }
         // regression witness of the cache defect (DESIGN §6 D6): same host, other port
+        v.push(Case { lines: vec!["dns clear".into(), "dns rlocal2 80 443".into(), "dns rlocal2 8080 80".into(), "dns clear".into(), "dns rlocal2 443 80".into()] });
         v.push(Case { lines: vec!["dns clear".into(), format!("dns seed {} 7f000001:80", hex(b"h.test")), format!("dns resolve {} 443", hex(b"h.test")), "dns rlocal 80".into(), "dns rlocal 443".into()] });
         // every special IPv4 / IPv6 form through the real client encoder and the real server decoder
         for a in V6_SPECIAL { v.push(Case { lines: vec![format!("dest enc 4 {} 443", hex_compact(a))] }); v.push(Case { lines: vec![format!("dest dec 1 {}", hex(&enc_dest(4, a, 8080)))] }); }
@@ -218,6 +227,16 @@ impl Group for DestGroup {
             let side = if rng.chance(1, 2) { "c" } else { "s" };
             return Case { lines: vec![format!("dest dgdec {} {} {}", side, open, chunks_str(&cut(rng, &w)))] };
         }
+        if k < 88 {
+            // the relay loop on 1-4 datagrams cut at random, pauses between some pieces
+            let nd = rng.range(1, 4);
+            let mut w = vec![];
+            for _ in 0..nd { let n = if rng.chance(1, 6) { *rng.pick(&[1usize, 255, 256, 1472, 9000]) } else { rng.range(1, 60) as usize }; let d = rng.bytes(n.min(300)); let d = if n > 300 { vec![d[0]; n] } else { d }; w.extend_from_slice(&(d.len() as u16).to_be_bytes()); w.extend(d); }
+            let cs = cut(rng, &w);
+            let mut toks = vec![];
+            for (i, c) in cs.iter().enumerate() { if i > 0 && rng.chance(1, 2) { toks.push(format!("~{}", rng.pick(&[1u64, 900, 2100, 5100, 11000, 61000]))); } toks.push(hex_compact(c)); }
+            return Case { lines: vec![format!("dest udprelay {}", toks.join(" "))] };
+        }
         // resolver histories over seeded names, literals and localhost
         let hosts: [Vec<u8>; 3] = gen_hosts(rng);
         let mut lines = vec!["dns clear".to_string()];
@@ -240,7 +259,7 @@ impl Group for DestGroup {
                     }
                     lines.push(format!("dns resolve {} {}", hex(h), rng.pick(&PORTS)));
                 }
-                8 => lines.push(format!("dns rlocal {}", rng.pick(&PORTS))),
+                8 => if rng.chance(1, 2) { lines.push(format!("dns rlocal {}", rng.pick(&PORTS))) } else { if rng.chance(1, 2) { lines.push("dns clear".into()); } lines.push(format!("dns rlocal2 {} {}", rng.pick(&PORTS), rng.pick(&PORTS))) },
                 _ => { let n = if rng.chance(1, 2) { 4 } else { 16 }; let ip = rng.bytes(n); lines.push(format!("dns literal {} {}", hex(&ip), rng.pick(&PORTS))); }
             }
         }
@@ -413,6 +432,40 @@ async fn exec_line(toks: &[&str], out: &mut Outcome) -> String {
             }
             format!("[{}] end={end}", got.iter().map(|d| hex_compact(d)).collect::<Vec<_>>().join(","))
         }
+        ["dest", "udprelay", chunks @ ..] => {
+            // the server's relay loop itself (handle_udp_over_tcp) on a hand-made stream and a real loopback UDP socket as
+            // the target: the length-prefixed datagrams arrive in the given chunks, with pauses (`~ms`) between them
+            let Some((cs, pauses)) = split_pauses(chunks) else { return "bad-op".into() };
+            let Ok(target) = tokio::net::UdpSocket::bind("127.0.0.1:0").await else { return "bad-op".into() };
+            let port = target.local_addr().map(|a| a.port()).unwrap_or(0);
+            let (stream, keep) = new_stream(&[], true);
+            let tx = keep.unwrap();
+            let relay = tokio::spawn(anytls_rs::server::udp_proxy::handle_udp_over_tcp(stream.clone()));
+            let mut req = vec![1u8, 1, 127, 0, 0, 1];
+            req.extend_from_slice(&port.to_be_bytes());
+            let _ = tx.send(Bytes::from(req));
+            tokio::time::sleep(std::time::Duration::from_millis(5)).await;
+            let mut got: Vec<Vec<u8>> = vec![];
+            let mut buf = vec![0u8; 70000];
+            for i in 0..=cs.len() {
+                let ms: u64 = pauses.iter().filter(|(at, _)| *at == i).map(|x| x.1).sum();
+                if ms > 0 { tokio::time::sleep(std::time::Duration::from_millis(ms)).await; }
+                if i < cs.len() { let _ = tx.send(Bytes::from(cs[i].clone())); }
+                // what has reached the target so far
+                while let Ok(Ok((n, _))) = tokio::time::timeout(std::time::Duration::from_millis(20), target.recv_from(&mut buf)).await { got.push(buf[..n].to_vec()); }
+            }
+            while let Ok(Ok((n, _))) = tokio::time::timeout(std::time::Duration::from_millis(200), target.recv_from(&mut buf)).await { got.push(buf[..n].to_vec()); }
+            relay.abort();
+            // O (C15): the target receives exactly the complete datagrams of the byte stream, each once, in order
+            let all = cs.concat();
+            let mut want: Vec<Vec<u8>> = vec![];
+            let mut off = 0usize;
+            while off + 2 <= all.len() { let n = u16::from_be_bytes([all[off], all[off + 1]]) as usize; if n == 0 || off + 2 + n > all.len() { break; } want.push(all[off + 2..off + 2 + n].to_vec()); off += 2 + n; }
+            if got != want {
+                out.oracle.push(OracleFail { sig: "datagram_boundaries_changed/stream_to_udp".into(), detail: format!("{} datagrams encoded in the stream (sizes {:?}), the target received {} (sizes {:?})", want.len(), want.iter().map(|d| d.len()).collect::<Vec<_>>(), got.len(), got.iter().map(|d| d.len()).collect::<Vec<_>>()) });
+            }
+            format!("[{}]", got.iter().map(|d| hex_compact(d)).collect::<Vec<_>>().join(","))
+        }
         ["dns", "clear"] => { anytls_rs::util::dns_cache::verif_dns::clear().await; "ok".into() }
         ["dns", "seed", h, addrs] => {
             let Some(h) = unhex(h).and_then(|b| String::from_utf8(b).ok()) else { return "bad-op".into() };
@@ -449,6 +502,20 @@ async fn exec_line(toks: &[&str], out: &mut Outcome) -> String {
             match anytls_rs::util::resolve_host_with_cache(&s, port).await {
                 Ok(sa) => { let ipb = match sa.ip() { IpAddr::V4(a) => a.octets().to_vec(), IpAddr::V6(a) => a.octets().to_vec() }; format!("ok {} {}", hex(&ipb), sa.port()) }
                 Err(_) => "err".into(),
+            }
+        }
+        ["dns", "rlocal2", p1, p2] => {
+            // two requests for the same name with different ports whose lookups overlap (a cold or expired entry)
+            let (Ok(p1), Ok(p2)) = (p1.parse::<u16>(), p2.parse::<u16>()) else { return "bad-op".into() };
+            let (a, b) = tokio::join!(anytls_rs::util::resolve_host_with_cache("localhost", p1), anytls_rs::util::resolve_host_with_cache("localhost", p2));
+            match (a, b) {
+                (Ok(a), Ok(b)) => {
+                    if a.port() != p1 || b.port() != p2 || !a.ip().is_loopback() || !b.ip().is_loopback() {
+                        out.oracle.push(OracleFail { sig: "wrong_port_from_cache/resolve_host_with_cache".into(), detail: format!("overlapping requests localhost:{p1} and localhost:{p2} resolved to {a} and {b}") });
+                    }
+                    format!("ok ports={},{} loopback={},{}", a.port(), b.port(), a.ip().is_loopback() as u8, b.ip().is_loopback() as u8)
+                }
+                _ => "err".into(),
             }
         }
         ["dns", "rlocal", port] => {
